@@ -357,7 +357,9 @@ func workerLoop(scns []Scenario) {
 		scn := &scns[rq.Item.Scn]
 		var st *stats
 		if scn.Sequential {
+			old := runtime.GOMAXPROCS(runtime.NumCPU())
 			_, st = runSeq(scn, false)
+			runtime.GOMAXPROCS(old)
 		} else {
 			if !warmed[rq.Item.Scn] {
 				warmed[rq.Item.Scn] = true
